@@ -57,7 +57,7 @@ package retrieval
 //@ # a chunk delivered by a peer is stored, reported and returned only if it is a valid content-addressed
 //@ # or single-owner chunk for the requested address
 //@ func (*Service).retrieveChunk
-//@   property C06
+//@   property C06 C37:safety
 //@   requires ctx != nil && s != nil && s.storer != nil && s.accounting != nil && s.chunkinfo != nil && s.acoServer != nil && s.routeTab != nil && s.streamer != nil && s.logger != nil
 //@   requires s.metrics.TotalErrors != nil && s.metrics.TotalRetrieved != nil && s.metrics.InvalidChunkRetrieved != nil
 //@   # (the connection set-up branches are merged here; what follows needs only the stream)
@@ -66,3 +66,35 @@ package retrieval
 //@   callassert Storer.Put stored-only-if-valid: len($chs) == 1 && $chs[0] == chunk && (cacOK(ref(chunk)) || socOK(ref(chunk)))
 //@   callassert Interface.OnChunkRetrieved reported-only-if-valid: cacOK(ref(chunk)) || socOK(ref(chunk))
 //@   callassert Interface.Credit credited-only-if-valid: cacOK(ref(chunk)) || socOK(ref(chunk))
+
+//@ # ---- C37: no request from a remote peer makes the retrieval handler panic --------------------
+//@ extern func github.com/gauss-project/aurorafs/pkg/p2p/protobuf.NewWriterAndReader
+//@   assigns nothing
+//@ extern func (github.com/gauss-project/aurorafs/pkg/p2p.Stream).Reset
+//@   assigns nothing
+//@ extern func (github.com/gauss-project/aurorafs/pkg/p2p.Stream).FullClose
+//@   assigns nothing
+//@ extern func (*github.com/gauss-project/aurorafs/pkg/tracing.Tracer).StartSpanFromContext
+//@   ensures result0 != nil && result1 != nil && result2 != nil
+//@   assigns nothing
+//@ extern func (github.com/gauss-project/aurorafs/pkg/storage.Storer).Get
+//@   ensures err == nil ==> ch != nil
+//@   assigns nothing
+//@ extern func (*Service).RetrieveChunkFromNode
+//@   ensures result1 == nil ==> result0 != nil
+//@   assigns nothing
+//@ extern func (github.com/gauss-project/aurorafs/pkg/accounting.Interface).Debit
+//@   assigns nothing
+//@ extern func (github.com/gauss-project/aurorafs/pkg/chunkinfo.Interface).OnChunkTransferred
+//@   assigns nothing
+//@ # (proved in pkg/bitvector, C39: Get needs the bit inside the vector)
+//@ extern func (github.com/gauss-project/aurorafs/pkg/aurora.Model).IsFull
+//@   requires m.Bv != nil && len(m.Bv.b) >= 1
+//@   assigns nothing
+
+//@ # the peer's node mode was accepted by the handshake: a bit vector of at least one byte (C37 there)
+//@ func (*Service).handler
+//@   property C37
+//@   requires s != nil && s.storer != nil && s.accounting != nil && s.logger != nil && stream != nil
+//@   requires s.metrics.ChunkTransferredError != nil && s.metrics.TotalTransferred != nil
+//@   requires p.Mode.Bv != nil && len(p.Mode.Bv.b) >= 1
